@@ -199,7 +199,8 @@ def run_case(case):
                     # not a refusal: the library tripped over its own state while appending a compatible frame
                     return viol("append_crashed|%s|%s" % (scheme, exc_sig(e)), "append %d: %s" % (k, exc_detail(e)), labels=labels)
                 except Exception as e:
-                    if scheme != "drill" and "Column names of new data" in str(e):
+                    if scheme != "drill" and "Column names of new data" in str(e) and not (pn and not order):
+                        # (a partitioned dataset that holds no row yet has no partition columns to append to: by design)
                         # the batch has exactly the dataset's columns (and index): refusing it for its column names is wrong
                         # (drill datasets expose dirN instead of the partition columns and do refuse: a documented limit)
                         return viol("append_refused_compatible|%s|%s" % (scheme, ao["via"]), "append %d: %s" % (k, str(e)[:600]), labels=labels)
